@@ -9,7 +9,9 @@ def splitSemi (l : List String) : List (List String) :=
 
 /-- `tlsp <host> <port> ; <scheme> ; … | <res>.<leak> … ; <wire> …` -/
 def driverLine (inp obs : List String) : Bool × Bool × String × String :=
-  match splitSemi inp, splitSemi obs with
+  -- (an optional third token says in which order the client's builder was called: nothing to the model)
+  let inp' := match splitSemi inp with | [h, p, _order] :: reqs => [h, p] :: reqs | x => x
+  match inp', splitSemi obs with
   | [_host, _port] :: reqs, [results, wires] =>
     let schemes := reqs.filterMap List.head?
     let (cs, idx) := runSeq exact [] schemes
@@ -30,6 +32,21 @@ def driverLine (inp obs : List String) : Bool × Bool × String × String :=
       (pairs.all fun (s, r) => if schemeUsesTls s then r == "ok.0" else r.startsWith "ok.")
     let _ := idx
     (wiresOk && resOk, cls.isNone, cls.getD "-", shown)
+  | _, _ => (false, false, "bad-line", "")
+
+/-- `tlsd <scheme> | cfg=<0|1> wire=<tls|ascii|none>`: the default-constructed TLS transport in a process without an installed
+    crypto provider - the model's rule is the same as everywhere: a scheme that asks for TLS gets a TLS handshake first. -/
+def defaultLine (inp obs : List String) : Bool × Bool × String × String :=
+  match inp, obs with
+  | [scheme], [cfg, wire] =>
+    let tls := schemeUsesTls scheme
+    let shown := s!"cfg=1 wire={if tls then "tls" else "ascii"}"
+    let cls : Option String :=
+      if tls && wire == "wire=ascii" then some "C12/secure-scheme-in-clear"
+      else if cfg != "cfg=1" then some "C12/default-transport-without-tls-configuration"
+      else if tls && wire != "wire=tls" then some "C12/secure-request-not-sent"
+      else none
+    (s!"{cfg} {wire}" == shown, cls.isNone, cls.getD "-", shown)
   | _, _ => (false, false, "bad-line", "")
 
 end Hd.TlsPool
